@@ -80,7 +80,7 @@ func (p TEPart) ValidateTokenExchangeRequest(_ context.Context, r op.TokenExchan
 		r.SetRequestedTokenType(oidc.RefreshTokenType)
 	}
 	if r.GetExchangeSubjectTokenType() == oidc.IDTokenType && r.GetRequestedTokenType() == oidc.RefreshTokenType {
-		return errors.New("exchanging id_token to refresh_token is not supported")
+		return oidc.ErrInvalidRequest().WithDescription("exchanging id_token to refresh_token is not supported")
 	}
 	scopes := make([]string, 0, len(r.GetScopes()))
 	for _, scope := range r.GetScopes() {
